@@ -77,6 +77,10 @@ type Rec struct {
 	Natural []bool // per call: true when the failure came from the real callee, not from the plan
 	Entered bool   // the orbiter middleware's OnRecvPacket was called
 	InApp   bool   // set while the wrapped ICS-20 application runs (a panic that leaves it set is the application's)
+	// PanicAt, when positive, makes the PanicAt-th external call (bank, CCTP, Warp, events - not the wrapped
+	// application) panic instead of returning: an external module may panic; Injected reports that it happened
+	PanicAt  int
+	Injected bool
 }
 
 var errInjected = errors.New("injected fault")
@@ -97,6 +101,11 @@ func (r *Rec) done(kind string, ok, natural bool, args ...cq.V) {
 
 // around runs one fallible call under the plan.
 func (r *Rec) around(kind string, args []cq.V, real func() error) error {
+	if r.PanicAt > 0 && len(r.Trace) == r.PanicAt-1 && kind != "wrapped" {
+		r.done(kind, false, false, args...)
+		r.Injected = true
+		panic("injected: the external module panics (" + kind + ")")
+	}
 	if !r.begin() {
 		r.done(kind, false, false, args...)
 		return errInjected
@@ -398,8 +407,11 @@ func NewInst(s *sim.Sim, extra ...ExtraAction) (*Inst, error) {
 }
 
 // With runs f with a fresh recorder carrying the given plan and returns what was recorded.
-func (in *Inst) With(plan []bool, lie int64, f func()) *Rec {
-	r := &Rec{Plan: plan, Lie: lie}
+func (in *Inst) With(plan []bool, lie int64, f func()) *Rec { return in.WithPanic(plan, lie, 0, f) }
+
+// WithPanic is With plus an external call that panics.
+func (in *Inst) WithPanic(plan []bool, lie int64, panicAt int, f func()) *Rec {
+	r := &Rec{Plan: plan, Lie: lie, PanicAt: panicAt}
 	in.rec = r
 	defer func() { in.rec = &Rec{} }()
 	f()
